@@ -102,6 +102,17 @@ type IfaceSpec struct {
 	Requires string // optional spec predicate over the receiver that every call site must establish
 }
 
+// TypeInv is an assumed invariant of every value of a library type (instantiated when such a value
+// is obtained: parameter, load, call result, map lookup).
+type TypeInv struct {
+	Key   string
+	Vars  []string
+	Type  types.Type
+	Expr  ast.Expr
+	Text  string
+	Scope *Scope
+}
+
 type GlobalFact struct {
 	Lib  bool
 	Key  string
@@ -112,7 +123,7 @@ type GlobalFact struct {
 
 var clauseKeywords = map[string]bool{"func": true, "spec": true, "axiom": true, "requires": true, "ensures": true,
 	"assigns": true, "effects": true, "nilable": true, "loop": true, "pure": true, "trusted": true, "iface": true,
-	"import": true, "inline": true, "global": true, "props": true, "split": true, "reveal": true, "use": true}
+	"import": true, "inline": true, "global": true, "props": true, "split": true, "reveal": true, "use": true, "typeinv": true}
 
 func firstWord(s string) string {
 	s = strings.TrimSpace(s)
@@ -383,6 +394,28 @@ func (P *Program) parseClauses(lines []cline, sc *Scope, pkgPath string, lib boo
 				is.Requires = rhs[2]
 			}
 			P.Ifaces[key] = is
+			cur = nil
+		case "typeinv":
+			// typeinv <type> (x): expr     |   typeinv <maptype> (m, k): expr
+			i := strings.Index(rest, "(")
+			j := strings.Index(rest, "):")
+			if i < 0 || j < i {
+				return errf(l, "bad typeinv")
+			}
+			t, err := resolveTypeText(strings.TrimSpace(rest[:i]), sc, P)
+			if err != nil {
+				return errf(l, "%v", err)
+			}
+			body := strings.TrimSpace(rest[j+2:])
+			e, err := parseSpecExpr(body)
+			if err != nil {
+				return errf(l, "%v in %q", err, body)
+			}
+			ti := &TypeInv{Key: types.TypeString(t, nil), Vars: splitNames(rest[i+1 : j]), Type: t, Expr: e, Text: body, Scope: sc}
+			if !lib {
+				return errf(l, "typeinv is only allowed in library specs (it is an assumption)")
+			}
+			P.TypeInvs[ti.Key] = append(P.TypeInvs[ti.Key], ti)
 			cur = nil
 		case "global":
 			// global <pkgvar> : <expr over the variable name>   (constant-global fact, checked syntactically)
@@ -761,6 +794,11 @@ func resolveTypeExpr(e ast.Expr, sc *Scope, P *Program) (types.Type, error) {
 		return types.NewSlice(el), nil
 	case *ast.InterfaceType:
 		return types.NewInterfaceType(nil, nil), nil
+	case *ast.StructType:
+		if t.Fields == nil || len(t.Fields.List) == 0 {
+			return types.NewStruct(nil, nil), nil
+		}
+		return nil, fmt.Errorf("struct types with fields unsupported in specs")
 	case *ast.ParenExpr:
 		return resolveTypeExpr(t.X, sc, P)
 	case *ast.MapType:
